@@ -1,6 +1,7 @@
 open BinNums
 open BinPosDef
 open Datatypes
+open Nat
 
 module Pos =
  struct
@@ -65,6 +66,13 @@ module Pos =
   | Coq_xO p -> pred_double p
   | Coq_xH -> Coq_xH
 
+  (** val pred_N : positive -> coq_N **)
+
+  let pred_N = function
+  | Coq_xI p -> Npos (Coq_xO p)
+  | Coq_xO p -> Npos (pred_double p)
+  | Coq_xH -> N0
+
   type mask = Pos.mask =
   | IsNul
   | IsPos of positive
@@ -124,6 +132,26 @@ module Pos =
        | Coq_xH -> double_pred_mask p)
     | Coq_xH -> IsNeg
 
+  (** val mul : positive -> positive -> positive **)
+
+  let rec mul x y =
+    match x with
+    | Coq_xI p -> add y (Coq_xO (mul p y))
+    | Coq_xO p -> Coq_xO (mul p y)
+    | Coq_xH -> y
+
+  (** val iter : ('a1 -> 'a1) -> 'a1 -> positive -> 'a1 **)
+
+  let rec iter f x = function
+  | Coq_xI n' -> f (iter f (iter f x n') n')
+  | Coq_xO n' -> iter f (iter f x n') n'
+  | Coq_xH -> f x
+
+  (** val pow : positive -> positive -> positive **)
+
+  let pow x =
+    iter (mul x) Coq_xH
+
   (** val compare_cont : comparison -> positive -> positive -> comparison **)
 
   let rec compare_cont r x y =
@@ -160,6 +188,41 @@ module Pos =
     | Coq_xH -> (match q with
                  | Coq_xH -> true
                  | _ -> false)
+
+  (** val testbit : positive -> coq_N -> bool **)
+
+  let rec testbit p n =
+    match p with
+    | Coq_xI p0 ->
+      (match n with
+       | N0 -> true
+       | Npos n0 -> testbit p0 (pred_N n0))
+    | Coq_xO p0 ->
+      (match n with
+       | N0 -> false
+       | Npos n0 -> testbit p0 (pred_N n0))
+    | Coq_xH -> (match n with
+                 | N0 -> true
+                 | Npos _ -> false)
+
+  (** val iter_op : ('a1 -> 'a1 -> 'a1) -> positive -> 'a1 -> 'a1 **)
+
+  let rec iter_op op p a =
+    match p with
+    | Coq_xI p0 -> op a (iter_op op p0 (op a a))
+    | Coq_xO p0 -> iter_op op p0 (op a a)
+    | Coq_xH -> a
+
+  (** val to_nat : positive -> nat **)
+
+  let to_nat x =
+    iter_op Nat.add x (S O)
+
+  (** val of_succ_nat : nat -> positive **)
+
+  let rec of_succ_nat = function
+  | O -> Coq_xH
+  | S x -> succ (of_succ_nat x)
 
   (** val eq_dec : positive -> positive -> bool **)
 
